@@ -390,6 +390,21 @@ func genTrees(ctx *Ctx, r *rng, prop string) []Case {
 		cc := objContent("commit", cdata)
 		c.add("st.put " + hx(sha1sum(cc)) + " " + hx(cc))
 		c.addExpect("idx.reset "+hx(sha1sum(cc)), "reset-readback", "ok "+entriesOut(flat))
+		// the staging area before the reset must not matter: same ids under other paths (a pure rename),
+		// a superset, a subset, the same entries
+		if len(flat) > 0 {
+			ren := append([]ent{}, flat...)
+			for i := range ren {
+				ren[i] = ent{ren[i].id, append([]byte("zz~"), ren[i].path...)}
+			}
+			sort.Slice(ren, func(i, j int) bool { return bytes.Compare(ren[i].path, ren[j].path) < 0 })
+			c.addExpect("idx.reset "+hx(sha1sum(cc))+" "+entriesOut(ren), "reset-readback", "ok "+entriesOut(flat))
+			sup := append(append([]ent{}, flat...), ent{flat[0].id, []byte("~extra")})
+			sort.Slice(sup, func(i, j int) bool { return bytes.Compare(sup[i].path, sup[j].path) < 0 })
+			c.addExpect("idx.reset "+hx(sha1sum(cc))+" "+entriesOut(sup), "reset-readback", "ok "+entriesOut(flat))
+			c.addExpect("idx.reset "+hx(sha1sum(cc))+" "+entriesOut(flat[:len(flat)-1]), "reset-readback", "ok "+entriesOut(flat))
+			c.addExpect("idx.reset "+hx(sha1sum(cc))+" "+entriesOut(flat), "reset-readback", "ok "+entriesOut(flat))
+		}
 		c.add("idx.reset " + hx(root)) // a tree id is not a commit: refused
 		cases = append(cases, c)
 	}
